@@ -178,13 +178,22 @@ def build(read):
         ensures
             obj_items(s0, lhs@, m, bind_type, 0) == (St{ok: true, w: scopes.world(), names: names_in_binding@, rem: remaining_keys@}),
         decreases lhs@.len() - gi"""}}
-    f1 = extract.annotate_fn(f1, spec=SPEC_OBJ, attrs="#[verifier::loop_isolation(false)]\n#[verifier::allow_complex_invariants]", loops=loops)
+    f1 = extract.annotate_fn(f1, spec=SPEC_OBJ, attrs="#[verifier::exec_allows_no_decreases_clause]\n#[verifier::loop_isolation(false)]\n#[verifier::allow_complex_invariants]", loops=loops)
     f1 = extract.rewrite_once(f1, "let prop_item = match __it.next() { Some(__x) => __x, None => break };\n",
                               "let prop_item = match __it.next() { Some(__x) => __x, None => break };\n proof { gi = gi + 1; }\n", "bind_object: ghost index")
     f2 = parts.annotate_closure(
         f2, "new_loc_err", "source: Error", "Result<()>",
         "r == Err::<(), Error>(Error::AtLoc{source: Box::new(source), line: prop_name.1.0, col: prop_name.1.1})", "bind_object_prop")
-    f2 = extract.annotate_fn(f2, spec=SPEC_PROP)
+    f2 = extract.annotate_fn(f2, spec=SPEC_PROP, attrs="#[verifier::exec_allows_no_decreases_clause]\n")
+    # bind_name (the public entry with a FRESH name set): copied and verified too, so that a pattern which binds a
+    # name through it (and so forgets the names bound so far) is seen
+    f3 = parts.copy_item(b, read, "src/eval/bind.rs", "fn", "bind_name")
+    f3 = extract.annotate_fn(f3, spec="""
+    ensures
+        ({ let x = sem_bind_name(old(scopes).world(), Set::<Seq<char>>::empty(), name@, *name_loc, rhs, bind_type);
+           r == x.0 && final(scopes).world() == x.1 }),
+        r matches Err(e) ==> located(e),
+""", attrs="#[verifier::exec_allows_no_decreases_clause]\n")
     b.edits.append("annotation: closures `new_loc_err` given parameter type, named result and literal postcondition")
     b.edits.append("D3: std HashSet<String> / BTreeMap<String, SourcedValue> replaced by assumed set / finite-map contracts")
 
@@ -197,7 +206,7 @@ def build(read):
         "impl Clone for BindType { #[verifier::external_body] fn clone(&self) -> (r: Self) ensures r == *self { unimplemented!() } }\nimpl Copy for BindType {}",
         parts.with_wrapper_ctors(MODEL, b, read),
         "// ---- functions under contract (verbatim bodies; contract text inserted at anchors)",
-        f1, f2,
+        f1, f2, f3,
         parts.FOOTER,
     ])
     return b
